@@ -155,6 +155,60 @@ def modinv_reqs(rng, tier):
     return reqs
 
 
+def layer_reqs(rng, tier):
+    """Layer link (digit-level operators inside modpow/modinv): operands chosen by the regime of the
+    OPERATOR the routine calls — `*` beyond schoolbook (Karatsuba above 32 digits, Toom-3 above 256), `%` on the
+    `to_u32` fast path (modulus < 2^32), on a one-digit divisor, on the multi-digit Knuth path with and without
+    normalisation shift, `&m - x` with a shorter / equally long x, `t0 + (m - qt1)` with a carry into a new
+    digit, the final `zz -= m` of monty_modpow."""
+    reqs = []
+    thorough = tier == "thorough"
+    for n in [33, 40] + ([70, 130, 260] if thorough else []):
+        for parity in (0, 1):
+            m = rng.choice(moduli(rng, n, parity))
+            bs = (big(rng, n), big(rng, n + 3), big(rng, max(1, n // 2)), m - 1)
+            for b in (bs if n <= 100 else (bs[rng.randrange(3)], m - 1)):
+                e = rng.choice([3, 5, 0x1f, 0x101, rng.randrange(2, 1 << 10), 1 << 7, (1 << 64) | 5])
+                if n > 100:
+                    e = rng.choice([3, 6, 0x15])
+                reqs.append("C05 u.modpow %s %s %s" % (wu(b), wu(e), wu(m)))
+            b = big(rng, n); e = rng.choice([3, 7, 0x21])
+            for (sb, sm) in (((1, 1), (1, -1), (-1, 1), (-1, -1)) if n <= 100 else ((1, -1), (-1, 1))):
+                reqs.append("C05 i.modpow %s %s %s" % (wi(sb * b), wi(e), wi(sm * m)))
+            reqs.append("C05 u.plain_modpow %s %s %s" % (wu(big(rng, n + 1)), wu(rng.choice([2, 6, 0x30])), wu(m)))
+        a, m = big(rng, n), big(rng, n)
+        for (x, y) in ((a, m), (a // 2 + 1, m | 1), (big(rng, n + 2), m), (big(rng, max(1, n // 3)), m)):
+            reqs.append("C05 u.modinv %s %s" % (wu(x), wu(y)))
+            reqs.append("C05 i.modinv %s %s" % (wi(-x), wi(rng.choice([1, -1]) * y)))
+    # small and one-digit moduli: `%` takes the to_u32 / rem_digit / div_rem_digit paths
+    for m in (6, 10, 1 << 31, (1 << 32) - 2, (1 << 32) - 1, 1 << 32, (1 << 32) + 1, (1 << 32) + 2, 1 << 63,
+              MAX - 1, MAX, rng.randrange(2, 1 << 32), rng.randrange(1 << 32, B)):
+        for b in (big(rng, 1), big(rng, 2), big(rng, 5), m - 1, m + 1):
+            e = rng.choice([2, 3, 0xff, 1 << 9, rng.randrange(B), (1 << 64) + 3])
+            reqs.append("C05 u.modpow %s %s %s" % (wu(b), wu(e), wu(m)))
+            reqs.append("C05 i.modpow %s %s %s" % (wi(-b), wi(e | 1), wi(rng.choice([1, -1]) * m)))
+            reqs.append("C05 u.modinv %s %s" % (wu(b), wu(m)))
+            reqs.append("C05 i.modinv %s %s" % (wi(-b), wi(-m)))
+    # divisor shapes for the Knuth path inside `%`: top digit with / without leading zeros, B^k, B^k ± 1
+    for n in (2, 3, 4, 7):
+        for m in (B ** (n - 1), B ** (n - 1) + 2, B ** n - 2, val([0] * (n - 1) + [1 << 63]), val([MAX] * (n - 1) + [1]),
+                  val([rng.randrange(B) & ~1] + [0] * (n - 2) + [rng.randrange(1, 1 << 20)])):
+            for b in (B ** n - 1, B ** (n + 1) - 1, big(rng, n), m + 1, 2 * m - 1):
+                e = rng.choice([2, 3, 9, 0x41, (1 << 64) | 1])
+                reqs.append("C05 u.modpow %s %s %s" % (wu(b), wu(e), wu(m)))
+                reqs.append("C05 u.modinv %s %s" % (wu(b | 1), wu(m)))
+                reqs.append("C05 i.modinv %s %s" % (wi(-(b | 1)), wi(rng.choice([1, -1]) * m)))
+    # results next to the ends of [0, m): `&m - result` borrows through every digit / cancels the top digits
+    for n in (1, 2, 3, 5):
+        m = B ** n + rng.choice([0, 1, 2, 3])
+        for r in (1, 2, m - 1, m - 2, B ** (n - 1) if n > 1 else 3, B ** n - 1):
+            # b = r has b^1 mod m = r
+            for sm in (1, -1):
+                reqs.append("C05 i.modpow %s %s %s" % (wi(-(r % m)), wi(1), wi(sm * m)))
+                reqs.append("C05 i.modpow %s %s %s" % (wi(r % m), wi(1), wi(sm * m)))
+    return reqs
+
+
 def gen(rng, tier):
     reqs = []
     thorough = tier == "thorough"
@@ -210,6 +264,7 @@ def gen(rng, tier):
             reqs.append("C05 u.modpow %s %s ." % (wu(b), wu(e)))
             reqs.append("C05 u.plain_modpow %s %s ." % (wu(b), wu(e)))
     reqs += modinv_reqs(rng, tier)
+    reqs += layer_reqs(rng, tier)
     # inv_mod_alt
     for b in [1, 3, 5, 7, MAX, MAX - 2, (1 << 63) + 1, (1 << 32) + 1, (1 << 32) - 1, (1 << 63) - 1, 0x5555555555555555]:
         reqs.append("C05 raw.inv_mod_alt %x" % b)
